@@ -3,6 +3,7 @@ package checks
 import (
 	"encoding/json"
 	"fmt"
+	"strings"
 
 	"verif/mc/evid"
 	"verif/mc/ref"
@@ -17,7 +18,7 @@ func init() {
 		Spec: func(tier string) evid.Spec {
 			return evid.Spec{ID: "C19", Level: "exploration", Exhaustive: true,
 				Rule: "(i) seen-bytes enumeration: for each packet type every combination of the first 9 body octets over {0,1,2,255} (length octets of every layout fall in that range) x 0..3 trailing bytes, plus 16-bit length pairs over {0,1,2,256,65535}, " +
-					"sent obfuscated under the server's key so the server sees exactly those bytes; (ii) 5 client x 5 server secrets x a corpus of valid requests of all four request layouts x 3 (session, seq) pads; " +
+					"sent obfuscated under the server's key so the server sees exactly those bytes; (ii) 8 client x 8 server secrets (up to 144 octets, three of them sharing their first 122 / 130 octets) x a corpus of valid requests of all four request layouts x 3 (session, seq) pads; " +
 					"(iii) every corpus request under the right key and in the clear under every server key; (iv) every odd client sequence number 1..255 x 2 session ids x {inconsistent bytes, corpus requests under a wrong key, the right key, in the clear (flag octets 0x01 and, for seq 1/3/255, 0x03 0x05 0x09 0x11 0x81 0xff)}; (v) mismatching packets followed in the same segment by one octet, by the header or by the whole of the client's next packet. The reference classifies the bytes the server will see under every layout of the type: " +
 					"all layouts inconsistent => MUST signal (no handler, exactly one ERROR packet of the same type obfuscated with the server key, close); exact request layout or unencrypted flag => MUST NOT signal (handler runs, nothing written); " +
 					"otherwise either complete behaviour is accepted. distinct_nontrivial counts distinct (type, seen bytes) in the MUST or MUST-NOT class",
@@ -296,7 +297,8 @@ func c19Run(c *Ctx) {
 		}
 	}
 	// (ii) key pairs and (iii) right key / clear
-	keys := []string{"", "a", "fooman", "server-key-19", "a-much-longer-shared-secret-of-40-bytes!!"}
+	long := strings.Repeat("0123456789abcdef", 9) // 144 octets
+	keys := []string{"", "a", "fooman", "server-key-19", "a-much-longer-shared-secret-of-40-bytes!!", long, long[:122], long[:130] + "X"}
 	pads := []struct {
 		sid uint32
 		seq byte
